@@ -177,6 +177,7 @@ def Skeleton.pinned : Skeleton where
   clNilErrorViaIsNil := true
   msgCodecPlain := true
   linkReturnsOnlyFatalSlot := true
+  errBranchesHandled := true
   locksBalanced := true
   ucNoWaiting := true
   accesses := [
